@@ -137,7 +137,7 @@ fn run_set<S: PS>(ctx: &Ctx) -> Acc {
     acc.sample(json!({"set": p.name, "fault_matrix": {"entries": entries.iter().map(|e| e.name()).collect::<Vec<_>>(), "fail_at": [0,1,2], "kinds": kinds.iter().map(|k| format!("{k:?}")).collect::<Vec<_>>()}, "example_cell": {"entry": "try_sign_with_rng", "fail_at": 0, "fault": "AfterPartial(16): 16 real bytes, 16 x 0xEE, then Err", "expected": "Err, no unwind"}}));
 
     // ---- influence of every bit of every draw ---------------------------------------------------
-    let n_base = ctx.budget(1, 4) as usize;
+    let n_base = ctx.budget(1, 16) as usize;
     let jobs: Vec<(usize, usize)> = (0..n_base).flat_map(|b| (0..entries.len()).map(move |e| (b, e))).collect();
     let accs = par_map(jobs.len(), |j| {
         let (b, ei) = jobs[j];
